@@ -345,8 +345,9 @@ def _get_phases_from_header(header: List[str]) -> dict:
             if match:
                 group = re.split("[ \t]", line.lstrip("# ").rstrip(" "))
                 group = list(filter(None, group))
-                if key == "names":
-                    group = " ".join(group[1:])  # Drop "MaterialName"
+                if key in ["names", "formulas"]:
+                    # Drop "MaterialName" or "Formula"
+                    group = " ".join(group[1:])
                 elif key == "lattice_constants":
                     group = [float(i) for i in group[1:]]
                 else:
